@@ -56,6 +56,10 @@ DIRECTED = {
                                   "conv 0 0 10", "0 hasfz0", "0 getfz0v 1", "0 resize 10 1 2 2", "0 getfz0v 1"],
     "ordinary_without_frequencies": ["0 init 5 3 3 0", "0 setz0v 3 1,0 2,0 3,0", "1 init 1 2 2 2", "1 setfz0 1 1 9,9", "conv 0 1 1",
                                      "1 hasfz0", "1 getz0v", "1 resize 1 3 3 1", "1 getfz0v 0"],
+    # the format carried by the set-up is the one vnadata_get_format of the source reports, also after a clear
+    "format_cleared_before_convert": SRC22 + ["0 setfmt -1", "0 meta", "1 setfmt 4", "conv 0 1 4", "1 meta", "0 meta",
+                                              "0 setfmt 1", "0 setfmtbad 2", "conv 0 1 5", "1 meta", "1 setfmt -1", "conv 1 0 1",
+                                              "0 meta", "conv 0 0 10", "0 meta"],
     # refused conversions leave a used destination and the source as they are
     "refused_keeps_destination": SRC22 + BIGDST + ["conv 0 1 11", "1 meta", "conv 0 1 -1", "1 getmat 2", "conv 0 1 0", "1 getfz0v 2",
                                                    "0 settype 0", "0 resize 0 2 3 2", "conv 0 1 4", "1 getmat 1", "0 meta",
@@ -250,6 +254,8 @@ def run(ctx):
         "translator translate/convtable.py (C initialisers -> Gallina table), validated exhaustively against the compiled table on every run",
         "hand-written coq/Data/ConvertModel.v (conv_spec, convert) tied by op-script correspondence; the vnaconv functions are abstract here (C04)",
         "extraction + ocaml/drv_data.ml, harness/data_harness.c, harness/convtable_harness.c, gcc ASan/UBSan/LSan",
+        "coq/Data/ChainModel.v: conv instantiated by the generated two-port functions (Gen/Conv2All.v, property C04); the N x N functions "
+        "between S, Z, Y are identified at n = 2 with the two-port functions (Properties_C04n n = 2 equalities, not composed)",
         "lib/datalib.py: a probe script on the compiled library selects which of the two model variants (finding DD2 present / repaired, "
         "ConvertModel.dd2_fixed) the correspondence uses; every theorem is proved for both",
     ]
@@ -268,7 +274,8 @@ def run(ctx):
         ctx.obligation("T2:translate", False, str(e))
         ctx.log("T2: source no longer matches the accepted idiom:", e)
     ok, res = ctx.coq_obligations(["Gen/ConvTableGen.v", "Data/ConvertProofs.v", "Data/ConvertRefine.v", "Data/ConvertTheorems.v",
-                                    "Data/ConvertExamples.v", "Properties_C05.v"])
+                                    "Data/ConvertExamples.v", "Data/TwoObjProofs.v", "Data/ChainProofs.v", "Data/ChainExamples.v",
+                                    "Properties_C05.v"])
 
     # ------------------------------------------------------------------ 2. validate T2
     runner = datalib.Runner(ctx)
